@@ -79,6 +79,37 @@ func handle(line string) (out string) {
 			fl = append(fl, s)
 		}
 		return "ok " + hexList(buildtags.VerifParseBuildTags(fl))
+	case f[0] == "check" && len(f) == 3:
+		var fl []string
+		if f[1] != "." {
+			for _, h := range strings.Split(f[1], ",") {
+				s, ok := unhex(h)
+				if !ok {
+					return "bad-op"
+				}
+				fl = append(fl, s)
+			}
+		}
+		var exprs []string
+		m := map[string]bool{}
+		for _, h := range strings.Split(f[2], ",") {
+			s, ok := unhex(h)
+			if !ok {
+				return "bad-op"
+			}
+			exprs = append(exprs, s)
+			m[s] = false
+		}
+		buildtags.CheckTags(fl, m)
+		var sb strings.Builder
+		for _, e := range exprs {
+			if m[e] {
+				sb.WriteByte('1')
+			} else {
+				sb.WriteByte('0')
+			}
+		}
+		return "ok " + sb.String()
 	case f[0] == "expand" && len(f) == 4:
 		t, ok1 := unhex(f[1])
 		d, ok2 := unhex(f[2])
